@@ -303,7 +303,7 @@ impl Property for P {
     fn rule(&self) -> String {
         "Generated, for every sealing suite x mode: arbitrary bytes into every from_bytes; PskBundle::new; setup_receiver with attacker-shaped encapsulated keys and sender keys (right length, real key with a flipped bit, arbitrary length, empty); open / open_in_place_detached / single_shot_open / single_shot_open_in_place_detached with ciphertexts of length 0, 1, Nt-1, Nt, Nt+1, block boundaries, 64 KiB+ (thorough: 1 MiB) and arbitrary tag bytes; setup_sender against attacker-shaped recipient keys with info/aad up to 64 KiB+; export lengths 0..=70000 with long contexts; derive_keypair with arbitrary ikm. \
          Receivers are optionally placed at a sequence position (hook) and handed one honest message first, so that attacker bytes also reach an exhausted context; 10% of the sessions use the empty PSK bundle in a PSK mode; the encapsulated key may be a value related to the session's own keys (the expected sender key, the recipient's own key, their same-DH twins, the generator). Swept: every ciphertext length 0..=Nt+17 x 36 suites (mode rotating) on a fresh and on a just-exhausted receiver, with the empty bundle for every 8th length; every key length 0..=2*size+2 for all 16 types; every length 0..=2100 of exporter context (one- and multi-block L), info, aad, psk and psk_id per KDF. \
-         Long run: 200 000 (thorough 2^24) consecutive rejected deliveries on one receiver per AEAD (a counter of failures inside a context must not overflow into a panic). Oracle: under catch_unwind, with debug assertions and overflow checks compiled in: no panic; errors only from the allowed set per entry point (deserialisers: IncorrectInputLength/ValidationError; setup_sender: EncapError; setup_receiver: DecapError; open: OpenError/MessageLimitReached; seal: SealError/MessageLimitReached; export: KdfOutputTooLong; PskBundle::new: InvalidPskBundle). \
+         Long run: 200 000 (thorough 2^22) consecutive rejected deliveries on one receiver per AEAD (a counter of failures inside a context must not overflow into a panic). Oracle: under catch_unwind, with debug assertions and overflow checks compiled in: no panic; errors only from the allowed set per entry point (deserialisers: IncorrectInputLength/ValidationError; setup_sender: EncapError; setup_receiver: DecapError; open: OpenError/MessageLimitReached; seal: SealError/MessageLimitReached; export: KdfOutputTooLong; PskBundle::new: InvalidPskBundle). \
          Non-trivial: inputs that get past the first length check plus the short/empty ciphertext class. Excluded: write_exact with a wrong-size buffer and export-only seal/open (documented caller-side panics)."
             .into()
     }
@@ -441,7 +441,7 @@ impl Property for P {
     fn extra(&self, tier: Tier, _seed: u64, x: &mut Extra) {
         // many consecutive rejected deliveries on ONE receiver (public API only): a per-context count
         // of failures is state no case-sized history reaches
-        let n: u64 = tier.pick(200_000, 1 << 24);
+        let n: u64 = tier.pick(200_000, 1 << 22);
         let results: Vec<(AeadId, LongRun)> = std::thread::scope(|sc| {
             let hs: Vec<_> = AeadId::SEALING.into_iter().map(|a| (a, sc.spawn(move || long_rejection_run(a, n)))).collect();
             hs.into_iter().map(|(a, h)| (a, h.join().unwrap_or_else(|_| LongRun::Infra("long run thread died".into())))).collect()
